@@ -465,7 +465,7 @@ theorem getElem?_const_map {β γ : Type} {l : List β} {c : γ} {r : Nat} {x : 
 /-! ## stage 1 -/
 
 theorem goodWG_geomStage {dw : World (DonorR α)} {rw : World (RecvR α)} {w w' : World (RankSt α)}
-    (hid : CellIdsOK dw) (hgh : GhostOK rw) (hdl : dw.length = rw.length) (hg : GoodWG dw rw w)
+    (hgh : GhostOK rw) (hdl : dw.length = rw.length) (hg : GoodWG dw rw w)
     (h : geomStage dw rw w = .ok w') : GoodWG dw rw w' := by
   unfold geomStage at h
   try simp only at h
@@ -752,7 +752,7 @@ theorem goodWG_locate {dw : World (DonorR α)} {ss : World (Refine.Model.Search.
   obtain ⟨w1, hw1, h⟩ := bind_eq_ok.mp h
   obtain ⟨w2, hw2, h⟩ := bind_eq_ok.mp h
   exact goodWG_treeLoop hdl hsl _ _ _ _ _ _
-    (goodWG_processAgents hid hgh hdl (goodWG_geomStage hid hgh hdl hg hw1) hw2) h
+    (goodWG_processAgents hid hgh hdl (goodWG_geomStage hgh hdl hg hw1) hw2) h
 
 /-- what `ref_interp_create` leaves satisfies it -/
 theorem goodWG_create {dw : World (DonorR α)} {rw : World (RecvR α)} (seeds : List (Nat × Nat))
